@@ -45,11 +45,11 @@ func (t *tr) adopt(v *val, hint string) {
 // pure let-binds a compound pure value under the variable's name.
 func (t *tr) pure(v *val, name string) *val {
 	if isAtom(v.e) {
-		return &val{t: v.t, e: v.e, nat: v.nat, lit: v.lit, lb: v.lb, cv: v.cv, hasCv: v.hasCv, trunc: v.trunc}
+		return &val{t: v.t, e: v.e, nat: v.nat, lit: v.lit, lb: v.lb, cv: v.cv, hasCv: v.hasCv, trunc: v.trunc, spare: v.spare}
 	}
 	n := t.freshFor(name, name)
 	t.emit("let " + n + " := " + v.e + " in")
-	return &val{t: v.t, e: n, nat: v.nat, lb: v.lb, cv: v.cv, hasCv: v.hasCv, trunc: v.trunc}
+	return &val{t: v.t, e: n, nat: v.nat, lb: v.lb, cv: v.cv, hasCv: v.hasCv, trunc: v.trunc, spare: v.spare}
 }
 
 func (t *tr) storeVar(name string, v *val, define bool) {
@@ -68,6 +68,11 @@ func (t *tr) storeVar(name string, v *val, define bool) {
 	}
 	if v.sq != nil {
 		t.fail("the outcome of ModSqrt must be examined by `if r == nil` right away")
+	}
+	if had && (old.v.t.k == kArr || (old.v.t.k == kStruct && !old.v.t.ptr) || (old.v.t.k == kZ && old.v.t.bigVal)) {
+		// Go overwrites the variable's storage, the translator would give it new storage:
+		// slices of it and pointers to it taken earlier (x[:], &x) would go stale
+		t.fail("re-assignment of the whole %s variable %s", old.v.t, name)
 	}
 	if v.t.k == kStruct && !v.t.ptr && v.o != nil && v.o.hint != "" {
 		// struct VALUE assignment copies (the fields are shared pointers)
@@ -246,10 +251,7 @@ func (t *tr) assignStmt(s *ast.AssignStmt, rest []ast.Stmt, k func() string) (st
 			return "", false
 		}
 	}
-	var vs []*val
-	for _, r := range s.Rhs {
-		vs = append(vs, t.eval(r))
-	}
+	vs := t.evalAll(s.Rhs...)
 	for i, l := range s.Lhs {
 		t.store(l, vs[i], define)
 	}
